@@ -18,6 +18,19 @@ def short_ty(t):
     return re.sub(r"std::collections::|ir::[a-z_:]*::|'_, |'a, |'_|<'a>", "", t)
 
 
+def is_hash_ty(ty):
+    """is the value itself a hash container (or one of its iterators) — not an array, tuple, Vec or Option that merely
+    *holds* hash containers (`for m in [&mut a, &mut b]` iterates the array, in order)"""
+    t = (ty or "").strip()
+    while t.startswith("&"):
+        t = t[1:].strip()
+        if t.startswith("mut "):
+            t = t[4:].strip()
+    if t.startswith(("[", "(")):
+        return False
+    return bool(HM.search(t.split("<")[0]))
+
+
 def find_sources(F):
     """(fn, node, map_type, method) for every hash-order source in the crate (HIR)"""
     out = []
@@ -25,16 +38,16 @@ def find_sources(F):
         if f.get("body") is None:
             continue
         for n in walk(f["body"]):
-            if n.get("k") == "MethodCall" and n["method"] in ITER_METHODS and HM.search(n.get("recv_ty", "")):
+            if n.get("k") == "MethodCall" and n["method"] in ITER_METHODS and is_hash_ty(n.get("recv_ty", "")):
                 out.append((f, n, n["recv_ty"], n["method"]))
             elif n.get("k") == "MethodCall" and n["method"] in ("extend", "extend_from_slice", "append", "from_iter") and n["args"] and \
-                    HM.search(n["args"][0].get("ty", "")) and "hash_map::" not in n["args"][0]["ty"] and "hash_set::" not in n["args"][0]["ty"] and not HM.search(n.get("recv_ty", "")):
+                    is_hash_ty(n["args"][0].get("ty", "")) and "hash_map::" not in n["args"][0]["ty"] and "hash_set::" not in n["args"][0]["ty"] and not is_hash_ty(n.get("recv_ty", "")):
                 # a hash container handed wholesale to an ordered container: `vec.extend(set)`
                 out.append((f, n, n["args"][0]["ty"], "into_iter"))
             elif n.get("k") == "Call" and (n.get("callee") or "").endswith("IntoIterator::into_iter") and n["args"]:
                 a = n["args"][0]
                 # `for x in &map` / `for x in map` (not `for x in map.iter()`, which is caught above)
-                if HM.search(a.get("ty", "")) and "hash_map::" not in a["ty"] and "hash_set::" not in a["ty"]:
+                if is_hash_ty(a.get("ty", "")) and "hash_map::" not in a["ty"] and "hash_set::" not in a["ty"]:
                     out.append((f, n, a["ty"], "into_iter"))
     return out
 
